@@ -1,7 +1,199 @@
-(* C34 - Row id sequences and the row id index are faithful. Property theorems only. *)
+(* C34 - Row id sequences and the row id index are faithful. Property theorems only.
+   Model: Core/Model_RowIds.v (U64Segment, EncodedU64Array, Bitmap, RowIdSequence, rechunk_sequences,
+   select_row_ids), Core/Model_RowIdIndex.v (RowIdIndex::new/get).  [seg_iter]/[rs_iter] is the list view. *)
 From LanceV Require Import Common.Base Core.Model_RowIds Core.Proofs_RowIds Core.Model_RowIdIndex Core.Proofs_RowIdIndex.
 Local Open Scope N_scope.
 
-Theorem C34_placeholder : forall n s, length (nrange s n) = n.
-Proof. exact nrange_length. Qed.
-Print Assumptions C34_placeholder.
+(* 1. A segment built from ANY duplicate-free u64 list outside the two known-finding classes holds exactly
+      those ids in order, whatever encoding it picks; len/get/position/contains agree with the list. *)
+Theorem C34_holds_ids : forall l : list N,
+  Forall (fun x => x < two64) l -> NoDup l ->
+  Known_C34_u64max l = false -> Known_C34_span_overflow l = false ->
+  exists sg, from_slice l = Ok sg /\ seg_wf sg = true /\ seg_iter sg = l
+    /\ seg_len sg = len_N l
+    /\ (forall i, seg_get sg i = nth_N l i)
+    /\ (forall v, seg_position sg v = index_of v l)
+    /\ (forall v, seg_contains sg v = memN v l).
+Proof.
+  intros l Hall Hnd Hm Hs. destruct (from_slice_holds l Hall Hnd Hm Hs) as [sg [E H]].
+  exists sg. split; [exact E|]. destruct H as [Hw Hi]. split; [exact Hw|]. split; [exact Hi|].
+  exact (holds_accessors sg l (conj Hw Hi)).
+Qed.
+Print Assumptions C34_holds_ids.
+
+(* F9b: ids containing u64::MAX break it (the exclusive Range<u64> end overflows). *)
+Theorem C34_u64max_refuted : exists l, Known_C34_u64max l = true /\ NoDup l /\ Forall (fun x => x < two64) l
+  /\ ~ (exists sg, from_slice l = Ok sg /\ seg_iter sg = l).
+Proof.
+  exists [u64max - 1; u64max]. split; [reflexivity|]. split.
+  - constructor; [intros [H | []]; discriminate | constructor; [intros [] | constructor]].
+  - split; [repeat constructor|]. intros [sg [H _]]. vm_compute in H. discriminate.
+Qed.
+Print Assumptions C34_u64max_refuted.
+
+(* found while modelling: an increasing list with >= 2^62-6 holes overflows `24 + 4 * n_holes`. *)
+Theorem C34_span_overflow_refuted : exists l, Known_C34_span_overflow l = true /\ Known_C34_u64max l = false
+  /\ NoDup l /\ Forall (fun x => x < two64) l /\ ~ (exists sg, from_slice l = Ok sg /\ seg_iter sg = l).
+Proof.
+  exists [0; 2 ^ 63]. split; [reflexivity|]. split; [reflexivity|]. split.
+  - constructor; [intros [H | []]; discriminate | constructor; [intros [] | constructor]].
+  - split; [repeat constructor|]. intros [sg [H _]]. vm_compute in H. discriminate.
+Qed.
+Print Assumptions C34_span_overflow_refuted.
+
+(* 2. Every well-formed segment (any of the 5 variants x 3 encodings): accessors agree with its list view. *)
+Theorem C34_segment_accessors : forall sg, seg_wf sg = true ->
+  seg_len sg = len_N (seg_iter sg)
+  /\ (forall i, seg_get sg i = nth_N (seg_iter sg) i)
+  /\ (forall v, seg_position sg v = index_of v (seg_iter sg))
+  /\ (forall v, seg_contains sg v = memN v (seg_iter sg)).
+Proof. intros sg H. exact (holds_accessors sg (seg_iter sg) (conj H eq_refl)). Qed.
+Print Assumptions C34_segment_accessors.
+
+(* 3. Operations commute with the list view. Domain [ids_ok]: unique ids, no u64::MAX, id span < 2^62-6
+      (so that no sub-list falls in a known-finding class). *)
+Theorem C34_segment_slice_delete : forall sg, seg_wf sg = true -> ids_ok (seg_iter sg) ->
+  (forall offset len, exists sg', seg_slice sg offset len = Ok sg' /\ seg_wf sg' = true
+       /\ seg_iter sg' = take_N len (skip_N offset (seg_iter sg)))
+  /\ (forall vals, subseq vals (seg_iter sg) -> exists sg', seg_delete sg vals = Ok sg' /\ seg_wf sg' = true
+       /\ seg_iter sg' = filter (fun x => negb (memN x vals)) (seg_iter sg)).
+Proof.
+  intros sg Hwf Hok. split.
+  - intros offset len. destruct (seg_slice_ok sg offset len Hwf Hok) as [sg' [E [H1 H2]]]. exists sg'. auto.
+  - intros vals Hs. destruct (seg_delete_ok sg vals Hwf Hok Hs) as [sg' [E [H1 H2]]]. exists sg'. auto.
+Qed.
+Print Assumptions C34_segment_slice_delete.
+
+Theorem C34_sequence_ops_like_lists : forall q, rseq_wf q = true ->
+  rs_len q = len_N (rs_iter q)
+  /\ (forall other, rseq_wf other = true ->
+        rseq_wf (rs_extend q other) = true /\ rs_iter (rs_extend q other) = rs_iter q ++ rs_iter other)
+  /\ (forall i, rs_get q i = nth_N (rs_iter q) i)
+  /\ (forall offset len, offset + len <= len_N (rs_iter q) ->
+        rs_slice q offset len = Ok (take_N len (skip_N offset (rs_iter q))))
+  /\ (forall sel, sorted_from 0 sel -> rs_select q sel = Ok (select_spec (rs_iter q) sel)).
+Proof.
+  intros q Hwf. split; [exact (rs_len_iter q Hwf)|]. split; [intros o Ho; exact (rs_extend_ok q o Hwf Ho)|].
+  split; [intro i; exact (rs_get_ok q i Hwf)|]. split; [intros o n H; exact (rs_slice_ok q o n Hwf H)|].
+  intros sel Hs. exact (rs_select_ok q sel Hwf Hs).
+Qed.
+Print Assumptions C34_sequence_ops_like_lists.
+
+Theorem C34_sequence_delete : forall q ids, rseq_wf q = true -> ids_ok (rs_iter q) -> NoDup ids ->
+  exists q', rs_delete q ids = Ok q' /\ rseq_wf q' = true
+             /\ rs_iter q' = filter (fun x => negb (memN x ids)) (rs_iter q).
+Proof. exact rs_delete_ok. Qed.
+Print Assumptions C34_sequence_delete.
+
+Theorem C34_rechunk : forall seqs sizes allow chunks,
+  Forall (fun q => rseq_wf q = true) seqs -> ids_ok (concat (map rs_iter seqs)) ->
+  rechunk_sequences seqs sizes allow = Ok chunks ->
+  concat (map rs_iter chunks) = concat (map rs_iter seqs)
+  /\ Forall2 (chunk_len_ok allow) chunks sizes
+  /\ Forall (fun c => rseq_wf c = true) chunks.
+Proof. exact rechunk_sequences_ok. Qed.
+Print Assumptions C34_rechunk.
+
+(* mask (delete by position): for strictly increasing in-range positions the result holds exactly the ids at
+   the other positions ([remove_at]), for a segment (any variant; the hand-made stats of U64Segment::mask with
+   its cyclic first/last-unmasked search are in the model) and for a whole sequence. *)
+Theorem C34_mask : 
+  (forall sg ps, seg_wf sg = true -> ids_ok (seg_iter sg) -> sincr ps ->
+     (forall p, In p ps -> p < len_N (seg_iter sg)) ->
+     exists sg', seg_mask sg ps = Ok sg' /\ seg_wf sg' = true /\ seg_iter sg' = remove_at 0 ps (seg_iter sg))
+  /\ (forall q ps, rseq_wf q = true -> ids_ok (rs_iter q) -> sincr ps ->
+     (forall p, In p ps -> p < len_N (rs_iter q)) ->
+     exists q', rs_mask q ps = Ok q' /\ rseq_wf q' = true /\ rs_iter q' = remove_at 0 ps (rs_iter q)).
+Proof.
+  split; [|exact rs_mask_ok]. intros sg ps H1 H2 H3 H4.
+  destruct (seg_mask_ok sg ps H1 H2 H3 H4) as [sg' [E [Hw Hi]]]. exists sg'. auto.
+Qed.
+Print Assumptions C34_mask.
+
+(* 4. mask_to_offset_ranges = the offsets of the selected ids, for EVERY mask predicate (the code as repaired
+      by 8e1324b; before the repair this failed when a RangeWithBitmap segment was not first - F9a). *)
+Theorem C34_mask_to_offset_ranges : forall (selected : N -> bool) q, rseq_wf q = true -> NoDup (rs_iter q) ->
+  exists rs, rs_mask_to_offset_ranges selected q = Ok rs
+             /\ flat_ranges rs = sel_off selected 0 (rs_iter q).
+Proof. exact rs_mask_to_offset_ranges_ok. Qed.
+Print Assumptions C34_mask_to_offset_ranges.
+
+(* 5. RowIdIndex::get on a chunk list with the invariants RowIdIndex::new is meant to establish
+      (well-formed segment pairs of equal length, ids inside the chunk range, pairwise disjoint ranges):
+      get id = Some addr  <->  (id, addr) is one of the indexed pairs.
+      PARTIAL: that index_new establishes these invariants and that the pairs are exactly the live rows of the
+      fragments is NOT proved here (it is checked by the exhaustive/random correspondence and the
+      brute-force oracle); it is false in the class Known_C34_index_overlapping_ranges (F18, below). *)
+Theorem C34_index_get_partial : forall idx, Forall chunk_ok idx -> disjoint_chunks idx ->
+  forall id addr, index_get idx id = Some addr <-> In (id, addr) (index_pairs idx).
+Proof. exact index_get_spec. Qed.
+Print Assumptions C34_index_get_partial.
+
+(* F18: fragment 0 keeps ids {1,2,4,5,8}, an update carried id 7 into fragment 1: RowIdIndex::new panics. *)
+Theorem C34_index_overlapping_ranges_refuted : exists frags,
+  Known_C34_index_overlapping_ranges frags = true /\ NoDup (flat_map (fun f => rs_iter (snd (fst f))) frags)
+  /\ ~ (exists idx, index_new frags = Ok idx).
+Proof.
+  exists [ (0, [SBitmap 1 9 [true; true; false; true; true; false; false; true]], []); (1, [SRange 7 8], []) ].
+  split; [vm_compute; reflexivity|]. split.
+  - vm_compute. repeat (constructor; [cbn [In]; intuition discriminate|]). constructor.
+  - intros [idx H]. vm_compute in H. discriminate.
+Qed.
+Print Assumptions C34_index_overlapping_ranges_refuted.
+
+(* ---------- non-vacuity ---------- *)
+Example C34_nonvacuous_holds :
+  Known_C34_u64max [3; 4; 5; 9; 10; 40] = false /\ Known_C34_span_overflow [3; 4; 5; 9; 10; 40] = false
+  /\ from_slice [3; 4; 5; 9; 10; 40] = Ok (SBitmap 3 41 (map (fun v => memN v [3; 4; 5; 9; 10; 40]) (range_iter 3 41)))
+  /\ from_slice [7000; 1; 24000] = Ok (SArray (EU16 1 [6999; 0; 23999])).
+Proof. vm_compute. repeat split; reflexivity. Qed.
+
+Example C34_nonvacuous_ids_ok : ids_ok (rs_iter [SRange 0 10; SSorted (EU16 100 [0; 7; 9])]).
+Proof.
+  split; [|split].
+  - vm_compute. repeat (constructor; [cbn [In]; intuition discriminate|]). constructor.
+  - vm_compute. repeat constructor.
+  - intros x y Hx Hy. vm_compute in Hx, Hy. change (2 ^ 62 - 6) with 4611686018427387898.
+    repeat (destruct Hx as [<- | Hx]; [repeat (destruct Hy as [<- | Hy]; [vm_compute; reflexivity|]); destruct Hy|]). destruct Hx.
+Qed.
+
+Example C34_nonvacuous_m2o :
+  rs_mask_to_offset_ranges (fun id => id mod 5 =? 0)
+    (rs_extend [SRange 0 10] [SBitmap 100 105 [true; true; false; true; true]]) = Ok [(0, 1); (5, 6); (10, 11)].
+Proof. vm_compute. reflexivity. Qed.
+
+Example C34_nonvacuous_index :
+  (do idx <- index_new [ (3, [SRange 10 13], [1]); (5, [SSorted (EU16 20 [0; 5])], []) ];
+   Ok (map (index_get idx) [10; 11; 12; 20; 25; 26]))
+  = Ok [Some (3 * two32); None; Some (3 * two32 + 2); Some (5 * two32); Some (5 * two32 + 1); None].
+Proof. vm_compute. reflexivity. Qed.
+
+(* exhaustive small-universe sweep of the candidate statements on the model (a test, not the theorem):
+   every duplicate-free list over ids 0..4 of length <= 3 - from_slice holds it, and every position mask /
+   every allow-mask behaves like the list operation. *)
+Definition sweep_lists : list (list N) :=
+  let ids := [0; 1; 2; 3; 4] in
+  [[]] ++ map (fun a => [a]) ids
+  ++ flat_map (fun a => flat_map (fun b => if a =? b then [] else [[a; b]]) ids) ids
+  ++ flat_map (fun a => flat_map (fun b => flat_map (fun c =>
+        if (a =? b) || (a =? c) || (b =? c) then [] else [[a; b; c]]) ids) ids) ids.
+Definition sub_masks (n : nat) : list (list bool) :=
+  fold_right (fun _ acc => map (cons true) acc ++ map (cons false) acc) [[]] (seq 0 n).
+Definition keep_by {A} (l : list A) (m : list bool) : list A := map fst (filter snd (combine l m)).
+Definition sweep_ok (l : list N) : bool :=
+  match from_slice l with
+  | Ok sg =>
+      nlist_eqb (seg_iter sg) l
+      && forallb (fun m =>
+           let ps := keep_by (map N.of_nat (seq 0 (length l))) m in
+           (match seg_mask sg ps with
+            | Ok sg' => nlist_eqb (seg_iter sg') (keep_by l (map negb m))
+            | _ => false end)
+           && (match rs_mask_to_offset_ranges (fun id => memN id (keep_by l m)) [sg] with
+               | Ok rs => nlist_eqb (flat_ranges rs) ps
+               | _ => false end))
+         (sub_masks (length l))
+  | _ => false
+  end.
+Example C34_sweep : forallb sweep_ok sweep_lists = true.
+Proof. vm_compute. reflexivity. Qed.
